@@ -129,7 +129,35 @@ def classifier_clause(model, rep, funcs):
     if h is not None:
         s = norm_src(h.node)
         rep.instance("SLOT.pca", h.loc())
-        ok = Matcher(h).all_of(["if mask:\n    $i = self._image * self._mask\nelse:\n    $i = self._image", "return $i.reshape(self._n_image, -1)"])[0]
+        MH_ = Matcher(h)
+        ok = MH_.all_of(["if mask:\n    $i = self._image * self._mask\nelse:\n    $i = self._image", "return $i.reshape(self._n_image, -1)"])[0]
+        if not ok:
+            # every return is a one-row-per-image reshape; the masked product is returned exactly on the `mask` path
+            rets_ = [r for r in walk_no_nested(h.node) if isinstance(r, ast.Return) and r.value is not None]
+            forms_ = set()
+            good_ = bool(rets_)
+            for r in rets_:
+                m_ = MH_.find("$$x.reshape(self._n_image, -1)", within=r)
+                if not m_:
+                    good_ = False
+                    break
+                forms_.add(norm_src(MH_.expr(m_[0][1]["x"][1])))
+            ok = good_ and forms_ in ({"self._image * self._mask", "self._image"}, {"self._image * self._mask if mask else self._image"}) and \
+                (len(forms_) == 1 or MH_.has("if mask:\n    ...") or MH_.has("if not mask:\n    ..."))
+            if ok and len(forms_) == 2:
+                # which branch returns which: the product never sits in the mask-false branch, the plain stack never in the mask-true branch
+                for iff in [n for n in walk_no_nested(h.node) if isinstance(n, ast.If)]:
+                    t_ = iff.test
+                    neg = isinstance(t_, ast.UnaryOp) and isinstance(t_.op, ast.Not)
+                    if norm_src(t_.operand if neg else t_) != "mask":
+                        continue
+                    true_branch, false_branch = (iff.orelse, iff.body) if neg else (iff.body, iff.orelse)
+                    for r in rets_:
+                        form = norm_src(MH_.expr(MH_.find("$$x.reshape(self._n_image, -1)", within=r)[0][1]["x"][1]))
+                        in_true = any(x is r for st in true_branch for x in ast.walk(st))
+                        in_false = any(x is r for st in false_branch for x in ast.walk(st))
+                        if (form == "self._image" and in_true) or (form == "self._image * self._mask" and in_false):
+                            ok = False
         rep.ob("SLOT", h.anchor, "flattening keeps one row per image (reshape(n_image, -1)) after the optional mask product", ok, "", node=h.node, fn=h,
                clause="classifier", stmt="def _image_flat")
     i = funcs.get(C + "__init__")
